@@ -439,6 +439,37 @@ def _loader_check(out, seen, ctx):
 
 
 # ------------------------------------------------------------------ conformance: one free-running real joblib run
+def cbin_cases(tier, seed):
+    return [("NP1", 2400, 5, scratch) for scratch in (False, True)] + [("NP2", 2587, 1000, True)]
+
+
+def cbin_check(case):
+    """a compressed recording gives the same files as its uncompressed original"""
+    fam, ns, max_wf, use_scratch = case
+    d = os.path.join(synth.proc_scratch(), "c13_cbin")
+    shutil.rmtree(d, ignore_errors=True)
+    os.makedirs(d)
+    fbin, cal, xy = _recording(d, fam, ns)
+    spikes = _spike_train(ns, (500, 777, 1000, 3000, 10000), 40, variant=3)
+    seen = {}
+    out1, out2 = os.path.join(d, "o_bin"), os.path.join(d, "o_cbin")
+    _run_extract(fbin, out1, spikes, max_wf, 777, None, seed=3)
+    sr = spikeglx.Reader(fbin)
+    fc = str(sr.compress_file(keep_original=False))
+    sr.close()
+    scratch = Path(d) / "scratch" if use_scratch else None
+    os.makedirs(out2)
+    with _Seams(None) as sm:
+        wx.extract_wfs_cbin(Path(fc), Path(out2), spikes[0], spikes[1], spikes[2], max_wf=max_wf, trough_offset=TROUGH, spike_length_samples=LENGTH,
+                            chunksize_samples=777, n_jobs=2, preprocess_steps=[], seed=3, scratch_dir=scratch)
+    for f in ("waveforms.traces.npy", "waveforms.templates.npy", "waveforms.channels.npz"):
+        if open(os.path.join(out1, f), "rb").read() != open(os.path.join(out2, f), "rb").read():
+            seen.setdefault("cbin-input:differs", "%s extracted from the compressed recording differs from the one extracted from the uncompressed original" % f)
+    # (observation, not asserted - the property does not speak about the input files: with scratch_dir=None the function deletes the
+    #  recording's own .meta together with the temporary .bin it decompressed next to the .cbin)
+    return Res(list(seen.items()), o=use_scratch, tr=2)
+
+
 def joblib_cases(tier, seed):
     return [("NP1", 2400, 5, 777, 2)] + ([("NP2", 3001, 1000, 500, 4)] if tier == "thorough" else [])
 
@@ -477,6 +508,7 @@ CHECK = {
         Clause("array", "extract_wfs_array / make_channel_index on every peak channel, radius and position", cases=array_cases, check=array_check),
         Clause("table", "spike selection: min(max_wf, #valid) distinct valid spikes per unit", cases=table_cases, check=table_check),
         Clause("file", "extract_wfs_cbin: rows = source, files agree, chunk-size and task-order independence, loader", cases=file_cases, check=file_check),
+        Clause("cbin-input", "compressed input (decompressed next to the file or to a scratch directory): same output files", cases=cbin_cases, check=cbin_check),
         Clause("joblib", "free-running joblib conformance point", cases=joblib_cases, check=joblib_check),
     ],
 }
